@@ -79,7 +79,35 @@ func genCli() {
 		})
 		pathSan = rawPath == 0 && wrappedPath >= 1
 	}
-	writeGen("Cli", fmt.Sprintf("def cliSanitizes : Bool := %v\ndef cliSanitizesPath : Bool := %v\ndef cliMaxDepth : Nat := %d\n", san, pathSan, md))
+	// inspectDirectory: nothing inside the recursive scan may end the process (log.Fatal*, os.Exit, panic): an entry that
+	// cannot be opened or listed is reported and the scan goes on; only main() decides the exit status
+	scanExits := true // the unsafe value when the function is not found
+	if idf := findFunc(f, "inspectDirectory"); idf != nil {
+		scanExits = false
+		ast.Inspect(idf.Body, func(n ast.Node) bool {
+			c, ok := n.(*ast.CallExpr)
+			if !ok {
+				return true
+			}
+			switch fn := c.Fun.(type) {
+			case *ast.SelectorExpr:
+				if x, ok := fn.X.(*ast.Ident); ok {
+					name := x.Name + "." + fn.Sel.Name
+					switch name {
+					case "log.Fatal", "log.Fatalf", "log.Fatalln", "log.Panic", "log.Panicf", "log.Panicln", "os.Exit", "runtime.Goexit":
+						scanExits = true
+					}
+				}
+			case *ast.Ident:
+				if fn.Name == "panic" {
+					scanExits = true
+				}
+			}
+			return true
+		})
+	}
+	facts["cli.scanCanExit"] = scanExits
+	writeGen("Cli", fmt.Sprintf("def cliSanitizes : Bool := %v\ndef cliSanitizesPath : Bool := %v\ndef cliMaxDepth : Nat := %d\ndef cliScanCanExit : Bool := %v\n", san, pathSan, md, scanExits))
 	facts["cli.pathSanitized"] = pathSan
 	facts["cli.printInfo.sanitizes"] = san
 	facts["cli.printInfo.wrapper"] = wrapper
